@@ -2842,7 +2842,9 @@ def substitute(t, sub, opts=None):
             out = get_attr(rec(t[1]), t[2])
         elif tag == 'call':
             f_ = t[1]
-            if f_[0] == 'attr':
+            if sub.get(f_) is not None:
+                f2 = sub[f_]
+            elif f_[0] == 'attr':
                 # the receiver of a method call keeps its pending stores (get_attr would look through them)
                 rx = rec(f_[1])
                 g_ = get_attr(rx, f_[2])
